@@ -195,6 +195,10 @@ def corpus():
     ]
 
 
+def focus(changed):
+    R.set_focus(changed)
+
+
 def generate(rng, n):
     out = []
     for c in R.reader_boundary_cases():
@@ -206,7 +210,18 @@ def generate(rng, n):
                 out.append({"kind": "line", "stream": "typed-special",
                             "spec": {"line": c["lines"][-1], "names": None, "scheme": GDC, "ln": 4}})
     while len(out) < n:
-        kind = rng.choice(["header", "line", "line", "validate", "reader", "reader", "reader", "writer", "sorting-writer"])
+        kinds = ["header", "line", "line", "validate", "reader", "reader", "reader", "writer", "sorting-writer"]
+        if R.focused("header.py"):
+            kinds += ["header"] * 4
+        if R.focused("record.py", "column.py", "column_types.py"):
+            kinds += ["line", "validate"] * 3
+        if R.focused("reader.py", "sort_order.py"):
+            kinds += ["reader"] * 4
+        if R.focused("writer.py"):
+            kinds += ["writer"] * 3 + ["sorting-writer"] * 2
+        if R.focused("sorter.py"):
+            kinds += ["sorting-writer"] * 4
+        kind = rng.choice(kinds)
         stream = rng.choice(["valid", "defect", "defect", "adversarial"])
         if kind == "header":
             out.append(_gen_header(rng, stream))
